@@ -1,6 +1,6 @@
 From Coq Require Import List Bool ZArith Lia.
 Import ListNotations.
-From MD Require Import ExecDefs.
+From MD Require Import Bytes Generated ExecDefs.
 Local Open Scope Z_scope.
 
 (* only a zero exit status lets the action list continue: any other exit status, "command not found"
@@ -51,4 +51,30 @@ Proof.
     { induction ops as [|o r IH]; intros t Ht; cbn [fold_left]; [exact Ht|]. apply IH. apply fd_step_cloexec. exact Ht. }
     apply G. constructor. }
   unfold inherited. induction H as [|d t Hd _ IH]; [reflexivity|]. cbn [filter]. rewrite Hd. cbn [negb]. exact IH.
+Qed.
+
+(* ---- the TZ variable ---- *)
+Lemma tzabbr_env_restores tz snap str : readenv_tz tz = Some snap -> tzabbr_env snap tz str = tz.
+Proof.
+  unfold readenv_tz, tzabbr_env. intros H. destruct str as [|c r]; [reflexivity|].
+  destruct tz as [s|].
+  - destruct (N.of_nat (length s) <? tz_buf_size)%N; [|discriminate]. inversion H; subst. cbn. destruct s; reflexivity.
+  - inversion H; subst. reflexivity.
+Qed.
+
+(* whatever zone abbreviations the messages carried, a child sees the TZ mdsort was started with *)
+Theorem child_tz_is_initial tz zones e : child_tz tz zones = Some e -> e = tz.
+Proof.
+  unfold child_tz. destruct (readenv_tz tz) as [snap|] eqn:E; [|discriminate]. intros [= <-].
+  induction zones as [|z zs IH]; cbn [fold_left]; [reflexivity|]. rewrite (tzabbr_env_restores tz snap z E). exact IH.
+Qed.
+
+(* mdsort starts iff TZ fits its buffer *)
+Theorem child_tz_defined tz zones : child_tz tz zones <> None <->
+  match tz with None => True | Some s => (N.of_nat (length s) < tz_buf_size)%N end.
+Proof.
+  unfold child_tz, readenv_tz. destruct tz as [s|]; [|split; [trivial | discriminate]].
+  destruct (N.ltb_spec (N.of_nat (length s)) tz_buf_size) as [H|H]; split; intros G; try discriminate; try assumption.
+  - contradiction.
+  - lia.
 Qed.
